@@ -31,7 +31,7 @@ CT = 'commands::test'
 EC = 'rules::eval_context'
 
 UNITS = {
-    'U-unary-probe': dict(functions='probe', cls='probe', quick=reg('rules::eval', ['k_un_exists_int', 'k_un_var_empty_unres']), thorough=[], assumptions=[], timeout=1200, mem_gb=10),
+    'U-unary-probe': dict(functions='probe', cls='probe', quick=reg('rules::eval', ['k_unsp_empty_int', 'k_unsp_empty_unres', 'k_unsp_empty_nosel', 'k_unsp_empty_null']) + reg('rules::eval_context', ['k_failed_min']), thorough=[], assumptions=[], timeout=900, mem_gb=12),
     'U-failed': dict(functions='eval_context::report_all_failed_clauses_for_rules', cls='bounded (2 rule records x status x 3 payload-free child configurations)',
                      quick=reg('rules::eval_context', ['k_failed_00', 'k_failed_01', 'k_failed_12', 'k_failed_20', 'k_failed_11']), thorough=[], assumptions=[STUBS[0]], timeout=900, mem_gb=8),
     'U-binflip': dict(functions='operators: impl Comparator for (CmpOperator, bool), CmpOperator, EqOperation, InOperation, CommonOperator, match_value',
